@@ -54,10 +54,23 @@ def _times(rng, n):
     return sorted(out)
 
 
-def _float_dtg(rng, kw_share=0.0):
+def _times_big(rng, n):
+    """n+1 increasing times far from 0 (recordings stamped with clock time, sample counts ...), half-way between integers,
+    a few binary64 steps apart but never closer than 1.2e-7 s: relative to their size they are almost equal, in absolute
+    terms every interval between them is well above the default minimumIntervalLength"""
+    base = rng.choice([2.0 ** 31, 1.7e9, 3.0e7, 1e12, 1e13, 5e10]) + 0.5
+    u = math.ulp(base)
+    k0 = max(1, math.ceil(1.2e-7 / u))
+    out = [base]
+    while len(out) < n + 1:
+        out.append(out[-1] + u * rng.randint(k0, k0 + 40))
+    return out
+
+
+def _float_dtg(rng, kw_share=0.0, big=False):
     """textgrid with arbitrary float times, encoded by rank ticks + value table."""
     n = rng.randint(2, 12) if rng.random() < 0.94 else rng.randint(16, 26)     # now and then room for 10+ entries in one tier
-    vals = _times(rng, n)
+    vals = _times_big(rng, n) if big else _times(rng, n)
     g = iogen.rand_dtg(rng, n, kw_share=kw_share)
     return g, vals
 
@@ -88,8 +101,9 @@ def generate(tier, rng):
     cases = _small_cases(rng, tier)
     n = 1200 if tier == "quick" else 40000
     for _ in range(n):
-        g, vals = _float_dtg(rng)
-        fmt, blanks = rng.choice(FORMATS), rng.random() < 0.5
+        big = rng.random() < 0.1
+        g, vals = _float_dtg(rng, big=big)
+        fmt, blanks = rng.choice(FORMATS), rng.random() < (0.8 if big else 0.5)
         empty = rng.random() < 0.5
         if rng.random() < 0.3 and fmt != "json":
             # a tier may span less than its textgrid (point tiers always; interval tiers when no blanks are filled in
@@ -100,8 +114,9 @@ def generate(tier, rng):
                     hi = t["entries"][-1][-2] if t["entries"] else g["xmin"]
                     t["xmin"] = rng.randint(g["xmin"], min(lo, g["xmax"]))
                     t["xmax"] = rng.randint(max(hi, t["xmin"]), g["xmax"])
-        cases.append({"op": "rt", "g": g, "vals": vals, "fmt": fmt, "blanks": blanks, "defthr": rng.random() < 0.5,
-                      "empty": empty, "scale": ["rank", 0]})
+        # far: no two times are closer than the default threshold, so saving with the default absorbs nothing either
+        cases.append({"op": "rt", "g": g, "vals": vals, "fmt": fmt, "blanks": blanks, "defthr": rng.random() < (0.8 if big else 0.5),
+                      "far": big, "empty": empty, "scale": ["rank", 0]})
     return cases
 
 
@@ -143,7 +158,7 @@ def run(case):
         tg = iogen.build_tg(case["g"], tof)
         fmt, blanks = case["fmt"], case["blanks"]
         # with blank filling off nothing may be absorbed, whatever the threshold: use the default there
-        kw = {} if (not blanks and case.get("defthr")) else {"minimumIntervalLength": None}
+        kw = {} if (case.get("defthr") and (not blanks or case.get("far"))) else {"minimumIntervalLength": None}
         before = _snap(tg)
         tg.save(fn, fmt, blanks, **kw)
         with open(fn, "r", encoding="utf-8", newline="") as fh:
